@@ -88,7 +88,9 @@ def source_facts():
         # proposed fix: the expired pair is deleted again (or skipped) instead of being loaded with ttl None
         "dropExpired": bool(re.search(r"\.delete\s*\(", exp)),
         # proposed fix: the marker-only list re-creates the empty stream
-        "keepEmptyStream": bool(re.search(r"empty_stream\s*\(|Stream::new\s*\(", typ)),
+        # a stream without entries comes back: the marker-only record creates the key (ad4770a) AND the last-ID pseudo entry does
+        # (3c61a3a: xrestore_last_id) — the model has one switch for "the loader restores emptied streams", pessimistic unless both are there
+        "keepEmptyStream": bool(re.search(r"empty_stream\s*\(|Stream::new\s*\(", typ)) and bool(re.search(r"xrestore_last_id\s*\(", typ)),
         # proposed fix (F23b), loader side: a first element equal to the escape string is dropped, the rest is a plain list
         "listEscapeRead": esc_read,
         # proposed fix (F23b), writer side: write_key_value writes the escape string in front of a list headed by marker/escape
@@ -738,7 +740,7 @@ class C09:
                 if lossless and ct is not None:
                     enc = unhx(self.mask("encsnap %d %s" % (ct * 1000, tokens(r0[3]))))
                     rep.evaluations += 1
-                    if enc != f:
+                    if enc != f and mask_last_id(enc) != mask_last_id(f):
                         i = next((j for j in range(min(len(enc), len(f))) if enc[j] != f[j]), min(len(enc), len(f)))
                         self.disagreements.append({"what": "model encSnapshot differs from the real file (same key order)", "case": name, "first_diff_at": i,
                                                    "real": hx(f[max(0, i - 16):i + 16]), "model": hx(enc[max(0, i - 16):i + 16]), "lens": [len(f), len(enc)]})
@@ -1320,6 +1322,18 @@ def size_class(n):
 
 def ttl_class(dl):
     return "none" if dl is None else "short" if dl < 1000 else "long"
+
+
+LAST_ID = b"__FERROUS_STREAM_LAST_ID__"
+_LAST_ID_RE = re.compile(re.escape(bytes([len(LAST_ID)]) + LAST_ID + b"\x01" + b"1") + b"([\x03-\x29])([0-9]+-[0-9]+)\x00")
+
+
+def mask_last_id(f):
+    """The text of a stream's last ID (the pseudo entry after the stream marker, 3c61a3a) is not a component of the RDB model,
+    which writes the greatest PRESENT ID there (Model/Rdb.lean `encLastId`): for byte comparisons with the model's file the
+    text is blanked on both sides (its length byte included).  That the last ID survives a restart is checked by C15."""
+    g = _LAST_ID_RE.sub(lambda m: m.group(0)[:len(LAST_ID) + 3] + b"\x00?\x00" if len(m.group(2)) == m.group(1)[0] else m.group(0), f)
+    return g if g == f else g[:-8]          # (the trailing checksum is a sum over the bytes written, the blanked ones included)
 
 
 def ctime_of(f):
